@@ -1,10 +1,12 @@
 #!/bin/bash
-# seedmatrix.sh [seed]: apply every saved seeded change to /repo in turn, run the quick check of its property, report which are detected.
+# seedmatrix.sh [seed] [id-regex]: apply every saved seeded change (of the properties matching id-regex, default all) to /repo in turn, run the quick check of its property, report which are detected.
 # (regression suite for the machinery itself; needs exclusive use of /repo; leaves /repo clean)
 cd /verif
 SEED=${1:-1}
+FILTER=${2:-.}
 for d in seeded/*/; do
   n=$(basename $d); id=${n%%-*}
+  echo $id | grep -Eq "$FILTER" || continue
   git -C /repo checkout -q -- . ; git -C /repo apply /verif/$d/patch.diff 2>/dev/null || { echo "$n: patch does not apply"; continue; }
   out=$(VERIF_SEED=$SEED ./check $id quick 2>&1 | grep -v KNOWN | tail -1)
   case "$out" in VIOLATION*) echo "$n: detected";; *) echo "$n: MISSED ($out)";; esac
